@@ -32,7 +32,7 @@ def sh(cmd, cwd, env=None, timeout=1800):
 
 def confirm(src):
     pid = os.path.basename(os.path.dirname(src))
-    k = os.path.basename(src)
+    k = str(int(os.path.basename(src)) + OFFSET)
     name = "%s-%s" % (pid, k)
     res = {"name": name, "property": pid}
     for f in ("patch.diff", "demo.py"):
@@ -101,7 +101,14 @@ def _needs(notes):
     return notes.strip().splitlines()[0][:300] if notes.strip() else ""
 
 
+OFFSET = 0
+
+
 def main(argv):
+    global OFFSET
+    if argv and argv[0] == "--offset":
+        OFFSET = int(argv[1])
+        argv = argv[2:]
     srcs = []
     for d in argv:
         for k in sorted(os.listdir(d)):
